@@ -20,6 +20,12 @@ pub struct HashTables {
     pub side: u64,
     pub step: [u64; 4], // xor relative to step 0
 }
+/// How the value tables were obtained: "incremental-api" (Zobrist::place_piece / exclude_step,
+/// independent of from_piece_board) or "from_piece_board-differences" (fallback used when the
+/// incremental Zobrist API of the tree under test no longer has the shape this harness knows).
+pub const HASH_TABLE_ROUTE: &str = if cfg!(feature = "zapi") { "incremental-api" } else { "from_piece_board-differences" };
+
+#[cfg(feature = "zapi")]
 pub fn extract_hash_tables() -> HashTables {
     // Deliberately NOT through Zobrist::from_piece_board (that is route (i)): the values are read
     // off the incremental API (place_piece / exclude_step), so a slip inside either route shows.
@@ -45,6 +51,28 @@ pub fn extract_hash_tables() -> HashTables {
     }
     HashTables { base_play_gold_step0: i0 ^ step0, piece, side, step }
 }
+
+#[cfg(not(feature = "zapi"))]
+pub fn extract_hash_tables() -> HashTables {
+    let empty = MBoard::empty();
+    let h = |b: &MBoard, gold: bool, step: usize| Zobrist::from_piece_board(piece_board_of(b).piece_board(), gold, step).board_state_hash();
+    let base = h(&empty, true, 0);
+    let mut piece = [[0u64; 64]; 13];
+    for c in 1..13u8 {
+        for i in 0..64 {
+            let mut b = empty;
+            b.0[i] = c;
+            piece[c as usize][i] = h(&b, true, 0) ^ base;
+        }
+    }
+    let side = h(&empty, false, 0) ^ base;
+    let mut step = [0u64; 4];
+    for k in 0..4 {
+        step[k] = h(&empty, true, k) ^ base;
+    }
+    HashTables { base_play_gold_step0: base, piece, side, step }
+}
+
 impl HashTables {
     pub fn scratch(&self, b: &MBoard, gold: bool, step: u8) -> u64 {
         let mut h = self.base_play_gold_step0;
